@@ -258,14 +258,19 @@ namespace ss
             std::set<int>                                     started;
 #if FOONATHAN_MEMORY_TEMPORARY_STACK_MODE == 1
             // explicit lifetime management: the thread holds an initializer for its whole body
-            try
-            {
-                init.reset(new fm::temporary_stack_initializer(256));
-            }
-            catch (const std::bad_alloc&)
-            {
+            // (a creation that fails for lack of memory is tried once more: the injected failure is over, the thread
+            //  must get a properly built stack then)
+            for (int attempt = 0; attempt < 2 && !init; ++attempt)
+                try
+                {
+                    init.reset(new fm::temporary_stack_initializer(256));
+                }
+                catch (const std::bad_alloc&)
+                {
+                    stats().hit("reach.temp_initializer_failed_and_retried");
+                }
+            if (!init)
                 return; // no stack, nothing this thread may do
-            }
 #endif
             auto pop = [&]
             {
